@@ -10,40 +10,18 @@ Open Scope Z_scope.
 Definition canon (t : list item) : option (list item) :=
   match sort_items t with [] => None | i :: r => Some (i :: r) end.
 
-(* ------------------------------------------------------------------ a short body cannot fake the marker *)
-Lemma short_body_marker body r : 0 < zlen body < 8 -> is_marker (body ++ APETAGEX ++ r) 0 = false.
-Proof.
-  intros H. destruct (is_marker (body ++ APETAGEX ++ r) 0) eqn:E; [|reflexivity]. exfalso.
-  unfold is_marker in E. apply list_eqb_spec in E.
-  destruct body as [|b0 [|b1 [|b2 [|b3 [|b4 [|b5 [|b6 [|b7 body]]]]]]]];
-    try (unfold zlen in H; cbn [length] in H; lia);
-    cbv [rd ztake zdrop] in E; change (Z.to_nat 0) with 0%nat in E; change (Z.to_nat 8) with 8%nat in E;
-    cbn [skipn firstn app APETAGEX] in E; discriminate E.
-Qed.
-
-Lemma marker0_tagged body items : has_marker body = false ->
-  zlen body = 0 \/ is_marker (body ++ ape_render_tag items) 0 = false.
-Proof.
-  intros Hm. pose proof (zlen_nonneg body).
-  destruct (Z.eq_dec (zlen body) 0) as [E|E]; [left; exact E|right].
-  destruct (Z_lt_dec (zlen body) 8).
-  - unfold ape_render_tag, ape_hdr. rewrite <- !app_assoc. apply short_body_marker. lia.
-  - unfold is_marker. rewrite rd_app_l by lia. apply (no_marker_probe body 0 Hm).
-Qed.
-
 (* ------------------------------------------------------------------ well-formedness of the results *)
 Lemma wf_tagged body items :
   has_marker body = false -> forallb item_valid items = true -> tag_fits items = true ->
   ape_wf (body ++ ape_render_tag items) = true.
 Proof.
   intros Hm Hv Hf. unfold ape_wf. rewrite parse_rendered by assumption. cbn [pbody ptrailer].
-  rewrite app_nil_r, Hm. cbn [negb andb].
-  destruct (marker0_tagged body items Hm) as [E|E]; [rewrite E; reflexivity|rewrite E; apply orb_true_r].
+  rewrite app_nil_r, Hm. reflexivity.
 Qed.
 Lemma wf_untagged g : has_marker g = false -> ape_wf g = true.
 Proof.
   intros Hm. unfold ape_wf. rewrite parse_untagged by assumption. cbn [pbody ptrailer].
-  rewrite app_nil_r, Hm, (no_marker_probe g 0 Hm). cbn. apply orb_true_r.
+  rewrite app_nil_r, Hm. reflexivity.
 Qed.
 
 (* every successful save on a well-formed file, in one statement *)
@@ -55,7 +33,7 @@ Theorem save_result real f s items f' :
 Proof.
   intros Hwf Hp Hv Hs. rewrite (save_spec real f s items Hwf Hp) in Hs.
   destruct (tag_fits items) eqn:Hf; [|discriminate]. injection Hs as <-.
-  destruct (wf_inv f Hwf) as (s' & Hp' & Hm & _). rewrite Hp in Hp'. injection Hp' as <-.
+  destruct (wf_inv f Hwf) as (s' & Hp' & Hm). rewrite Hp in Hp'. injection Hp' as <-.
   destruct (no_marker_app _ _ Hm) as [Hm1 _].
   split; [reflexivity|]. split; [reflexivity|]. split; [exact Hm1|].
   split; [apply parse_rendered; assumption | apply wf_tagged; assumption].
@@ -67,7 +45,7 @@ Theorem delete_result real f s f' :
   ape_parse f' = Ok (mkS f' None false []) /\ ape_wf f' = true.
 Proof.
   intros Hwf Hp Hd. rewrite (delete_spec real f s Hwf Hp) in Hd. injection Hd as <-.
-  destruct (wf_inv f Hwf) as (s' & Hp' & Hm & _). rewrite Hp in Hp'. injection Hp' as <-.
+  destruct (wf_inv f Hwf) as (s' & Hp' & Hm). rewrite Hp in Hp'. injection Hp' as <-.
   split; [reflexivity|]. split; [exact Hm|]. split; [apply parse_untagged, Hm | apply wf_untagged, Hm].
 Qed.
 
@@ -299,4 +277,13 @@ Proof.
   assert (E2 : l_end l = zlen body + zlen (ape_render_tag items)).
   { apply (f_equal zlen) in Ht. rewrite zlen_zdrop in Ht by lia. rewrite zlen_app in Ht. unfold zlen at 1 in Ht. cbn [length] in Ht. lia. }
   auto.
+Qed.
+
+(* the whole public behaviour is flavour independent on well-formed files *)
+Theorem flavour_irrelevant_wf f items : ape_wf f = true ->
+  ape_locate true f = ape_locate false f /\ ape_save true f items = ape_save false f items /\
+  ape_delete true f = ape_delete false f /\ ape_moddelete true f = ape_moddelete false f.
+Proof.
+  intros Hwf. pose proof (locate_flavour_wf f Hwf) as H.
+  unfold ape_moddelete, ape_mut_load, ape_save, ape_delete. rewrite H. repeat split; reflexivity.
 Qed.
